@@ -720,7 +720,8 @@ def json_roundtrip(src, form, kw=None, lkw=None, root_path=None, v=None,
   if d:
     simple = ''
     try:
-      if not pg.eq(v, r):
+      # (pg.eq compares functions by identity and nan != nan: no short form.)
+      if not pg.eq(v, r) and not ({'code-function', 'nan'} & features(v)):
         simple = 'assert pg.eq(v, r), (v, r)\n'
     except Exception:  # pylint: disable=broad-except
       pass
@@ -1457,11 +1458,15 @@ def drv_same_name_symbols(tier, seed):
     originals = [ev(s) for s in srcs]
     jobj = [pg.to_json(v) for v in originals]
     jstr = [pg.to_json_str(v) for v in originals]
+    for j in jobj:          # every member has been loaded once before (see the witness).
+      outcome(pg.from_json, copy.deepcopy(j))
     for qi, q in enumerate(seqs):
       for entry in _SEQ_ENTRIES:
         if tier != 'thorough' and len(q) > 1 and entry.startswith(('save', 'records')) and qi % 4:
           continue
-        head = f'{_header("C05")}from {_MOD} import assert_same\nvs = [{", ".join(srcs[i] for i in q)}]\n'
+        head = (f'{_header("C05")}from {_MOD} import assert_same\n'
+                f'for w in [{", ".join(srcs)}]:\n  pg.from_json(pg.to_json(w))    # earlier loads of the process\n'
+                f'vs = [{", ".join(srcs[i] for i in q)}]\n')
         try:
           if entry == 'from_json':
             got = [pg.from_json(copy.deepcopy(jobj[i])) for i in q]
@@ -1503,20 +1508,21 @@ def drv_same_name_symbols(tier, seed):
       for tpl, probe in [
           ("T.Dict([('a', T.Any(transform={f})), ('b', T.Any(transform={g}))])",
            "[x.apply({'a': 5, 'b': 5}) for x in (v, r)]"),
-          ("T.Tuple([T.Int(transform={f}), T.Int(transform={g})])", '[x.apply((5, 5)) for x in (v, r)]'),
+          ("T.Tuple([T.Any(transform={f}), T.List(T.Any(transform={g}))])", '[x.apply((5, [5])) for x in (v, r)]'),
           ("T.Dict([('a', T.Callable(default={f})), ('b', T.Callable(default={g}))])",
            "[[x.apply({})[k](5) for k in 'ab'] for x in (v, r)]"),
       ]:
         src = tpl.format(f=f, g=g)
         for form in ('obj', 'str'):
-          ok, back = record_json(rec, 'same-name', src, form, check_original=False,
-                                 cid='json-same-name/code-functions-in-one-value')
-          if ok:
-            o = outcome(eval, probe, dict(v=ev(src), r=back))   # pylint: disable=eval-used
-            rec.case('json-same-name/code-functions-in-one-value', (src, form, 'behaviour'),
-                     o[0] == 'ok' and diff_value(o[1][0], o[1][1]) == '', f'{probe}: {o}',
-                     f'{_header(src)}v = {src}\nr = pg.from_json_str(pg.to_json_str(v))\n'
-                     f'a, b = {probe}\nassert a == b, (a, b)\n')
+          # (specs compare functions by identity: only behaviour is compared.)
+          conv = ('pg.from_json(pg.to_json(v))' if form == 'obj'
+                  else 'pg.from_json_str(pg.to_json_str(v))')
+          v = ev(src)
+          o = outcome(lambda: eval(probe, dict(v=v, r=eval(conv, dict(pg=pg, v=v)))))  # pylint: disable=eval-used
+          rec.case('json-same-name/code-functions-in-one-value', (src, form, 'spec-behaviour'),
+                   o[0] == 'ok' and diff_value(o[1][0], o[1][1]) == '', f'{probe}: {o}',
+                   f'{_header(src)}v = {src}\nr = {conv}\n'
+                   f'a, b = {probe}\nassert a == b, (a, b)\n')
   return rec.result()
 
 
@@ -2069,6 +2075,20 @@ _LAYERS = {
     'save-txt': (_TEXTS, []),
 }
 
+# Saves that are refused ({p}: the path): the value cannot be serialized (an
+# opaque member that cannot be pickled / formatted, at the root or deep inside)
+# or the format is unknown.  Nothing is saved, so the path keeps its last value.
+_FAILED_SAVES = {
+    'save-json': ['pg.save(C05Leaf(C05Unserializable()), {p})',
+                  "C05Pair('v' * 200, right=[1, {{'k': C05Unserializable()}}]).save({p})",
+                  "pg.save({{'a': 1, 'b': C05Unserializable()}}, {p}, indent=2)",
+                  'pg.save(C05Unserializable(), {p}, hide_default_values=True)',
+                  "pg.save({{'a': 1}}, {p}, file_format='yaml')"],
+    'save-txt': ["pg.save(C05BadRepr(), {p}, file_format='txt')",
+                 "pg.save(pg.Dict(a='x' * 50, b=C05BadRepr()), {p}, file_format='txt')",
+                 "pg.save('text', {p}, file_format='text')"],
+}
+
 
 def _path_sets(fs, td, u):
   """-> {set name: ([path expr source], [path str])}; td is the std scratch dir."""
@@ -2156,6 +2176,16 @@ class _FsHistory:
 
   def _apply(self, kind, i, csrc, p, pe, key):
     try:
+      if kind == 'failed-save':
+        cls = 'failed-save-over-existing' if key in self.model else 'failed-save-on-path-holding-nothing'
+        stmt = csrc.format(p=pe)
+        self.lines.append(f'try:\n  {stmt}\n  refused = False\nexcept Exception:\n  refused = True\n'
+                          'assert refused, "saving a value that cannot be serialized succeeded"')
+        try:
+          exec(csrc.format(p='p'), dict(_ENV, p=p))  # pylint: disable=exec-used
+        except Exception:  # the save is refused: the model does not change.  pylint: disable=broad-except
+          return cls, None
+        return cls, 'saving a value that cannot be serialized did not raise'
       if kind in ('write', 'append'):
         content = ev(csrc)
         if kind == 'append':
@@ -2271,7 +2301,8 @@ class _FsHistory:
             break
       cls_id = bad[0] if bad else cls
       if (self.set_name != 'plain' and self.fs == 'mem'
-          and cls_id not in ('append-new-file', 'append-existing', 'overwrite-shorter')):
+          and cls_id not in ('append-new-file', 'append-existing', 'overwrite-shorter')
+          and not cls_id.startswith('failed-save')):
         # these paths alias / hide each other: their own input class.
         cls_id = self.set_name
       header = 'import os, pathlib\nimport pyglove as pg\n'
@@ -2307,7 +2338,8 @@ def _fs_handle_histories(layer, tier, r, n_rand):
   writes, appends = _LAYERS[layer]
   setups = writes[1:] if tier == 'thorough' else [writes[1], writes[3]]
   seconds = ([('write', 0, c) for c in writes] + [('append', 0, c) for c in appends]
-             + [('rm', 0, None), ('read', 0, None)])
+             + [('rm', 0, None), ('read', 0, None)]
+             + [('failed-save', 0, f) for f in _FAILED_SAVES.get(layer, [])[:2]])
   out = []
   for c in setups:
     for how in _HOWS:
@@ -2330,12 +2362,34 @@ def _fs_handle_histories(layer, tier, r, n_rand):
 
 def _fs_ops(layer, npaths=3):
   writes, appends = _LAYERS[layer]
+  fails = _FAILED_SAVES.get(layer, [])
   ops = []
   for i in range(npaths):
     ops += [('write', i, c) for c in writes]
     ops += [('append', i, c) for c in appends]
     ops.append(('rm', i, None))
+    if fails:     # one refused save per path (all of them: _fs_failed_save_histories).
+      ops.append(('failed-save', i, fails[i % len(fails)]))
   return ops
+
+
+def _fs_failed_save_histories(layer, tier):
+  """Every refused save after every state of the path (never written, each
+  content, removed, already refused once), followed by what may come next."""
+  writes, _ = _LAYERS[layer]
+  out = []
+  for f in _FAILED_SAVES.get(layer, []):
+    bad = ('failed-save', 0, f)
+    out.append((bad,))
+    out.append((bad, ('write', 0, writes[1])))
+    out.append((('write', 1, writes[1]), bad, ('failed-save', 1, f), ('write', 0, writes[2])))
+    for c in writes:
+      out.append((('write', 0, c), bad))
+      out.append((('write', 0, c), ('rm', 0, None), bad))
+    for c in (writes if tier == 'thorough' else writes[1:3]):
+      out.append((('write', 0, writes[3]), ('write', 0, c), bad, bad, ('write', 0, writes[1]), bad))
+      out.append((('write', 0, c), bad, ('rm', 0, None)))
+  return out
 
 
 def drv_file_systems(tier, seed):
@@ -2350,7 +2404,12 @@ def drv_file_systems(tier, seed):
             'relative path, os.PathLike paths and text<->bytes overwrite corner cases. reader handles left open: '
             'write c; [open a reader, nothing|read()|read(1)|readline()|seek(end)|seek(1), keep it open] + '
             're-read | overwrite x4 | append x2 | rm; close the handles late (all layers; quick: 2 of 3 '
-            'initial contents) + seeded histories mixing these over 3 paths. Not covered: "\\r" in '
+            'initial contents) + seeded histories mixing these over 3 paths. refused saves (pg.save / '
+            'v.save of a value with an unserializable / unformattable opaque member at the root or deep inside, '
+            'with indent / hide_default_values, unknown file_format): one per path among the ops of all '
+            'histories above + each of the 8 after every state of the path (never written, each content, removed, '
+            'refused before) and followed by write / rm / another refusal: the path keeps the last value saved. '
+            'Not covered: failing pg.io.writefile (python open(..., "w") semantics), "\\r" in '
             'text mode on the std fs (python newline translation), writer handles left open')
   td = tempfile.mkdtemp(prefix='c05fs')
   r = rng(seed, 'c05-fs')
@@ -2381,6 +2440,13 @@ def drv_file_systems(tier, seed):
           for h in hists:
             hist = new_hist(fs, layer, set_name)
             hist.run(rec, h, (fs, set_name, layer, tuple((k, i, c) for k, i, c in h)))
+            hist.cleanup()
+      # saves that are refused.
+      for layer in _FAILED_SAVES:
+        for set_name in _path_sets(fs, td, 'x'):
+          for h in _fs_failed_save_histories(layer, tier):
+            hist = new_hist(fs, layer, set_name)
+            hist.run(rec, h, (fs, set_name, 'failed-saves', layer, h))
             hist.cleanup()
       # reader handles left open.
       for layer in _LAYERS:
@@ -2460,6 +2526,14 @@ _JSON_LISTS = [[], ['1'], [r"'x\ny'", "{'a': (1, 2), 5: None}"],
                [r"'\r\n \x85'", '[1, [2, [3]]]', 'None', "'n_:5'", '2**70']]
 
 
+# a 6th record list, with a record whose add is refused ('!': expected to raise)
+# between two good ones: what was added before and after it is still there.
+_RAW_LISTS = _RAW_LISTS + [["'before'", '!5', "'after'"]]
+_RAW_LISTS_MEM = _RAW_LISTS_MEM + [_RAW_LISTS[5]]
+_JSON_LISTS = _JSON_LISTS + [["{'a': 1}", "!{'k': [C05Unserializable()]}", "'after'"]]
+_REFUSED_LIST = 5
+
+
 class _SeqHistory:
 
   def __init__(self, kind, ser, exprs, paths):
@@ -2533,24 +2607,39 @@ class _SeqHistory:
     return self._with_open_reader(cls, key), err
 
   def _session(self, mode, i, li, key):
-    srcs = self.lists[li]
-    recs = [ev(s) for s in srcs]
-    if mode == 'a':
+    refused = [s.startswith('!') for s in self.lists[li]]
+    srcs = [s.lstrip('!') for s in self.lists[li]]
+    every = [ev(s) for s in srcs]
+    recs = [x for x, b in zip(every, refused) if not b]
+    if any(refused):
+      cls = 'session-with-a-refused-add'
+    elif mode == 'a':
       cls = 'append-to-existing' if key in self.model else 'append-to-new'
     elif key not in self.model:
       cls = 'write-new'
     else:
       cls = ('rewrite-with-less-data' if self._size(recs) < self.sizes[key]
              else 'rewrite-with-more-or-equal-data')
-    self.lines.append(f'with {self._osrc(i, mode)} as f:\n'
-                      + ''.join(f'  f.add({s})\n' for s in srcs) + '  pass')
+    self.lines.append(
+        f'with {self._osrc(i, mode)} as f:\n'
+        + ''.join((f'  try:\n    f.add({s})\n    raise AssertionError("add of a bad record succeeded")\n'
+                   '  except (ValueError, TypeError):\n    pass\n') if b else f'  f.add({s})\n'
+                  for s, b in zip(srcs, refused)) + '  pass')
     try:
       f, _ = self._open(i, mode)
       with f:
-        for x in recs:
-          f.add(x)
+        for x, b in zip(every, refused):
+          if not b:
+            f.add(x)
+            continue
+          try:
+            f.add(x)
+          except Exception:  # refused: not a record of the sequence.  pylint: disable=broad-except
+            continue
+          return cls, 'adding a record that cannot be serialized did not raise'
     except Exception as e:  # pylint: disable=broad-except
       return cls, f'writing raised {type(e).__name__}: {e}'
+    srcs = [s for s, b in zip(srcs, refused) if not b]
     if mode == 'a':
       self.model[key] = self.model.get(key, []) + recs
       self.sizes[key] = self.sizes.get(key, 0) + self._size(recs)
@@ -2631,7 +2720,9 @@ def drv_sequences(tier, seed):
             'tuples, objects); sessions (w|a) x 2 paths x 5 record lists; ALL histories of <= 2 sessions '
             '(thorough: <= 3) + seeded longer ones; both paths re-read after every session; readers left open '
             '(0 / 1 / all records taken) while the path is re-read, rewritten (5 lists) or appended to '
-            '(5 lists), closed afterwards, + seeded histories mixing these. Raw records of '
+            '(5 lists), closed afterwards, + seeded histories mixing these; sessions (w|a) in which one add is '
+            'refused (non-str raw record / value that cannot be serialized) between two good adds, after every '
+            'earlier content: the records added before and after it are kept. Raw records of '
             'line sequences exclude "\\n" / "\\r" (the format is line based)')
   td = tempfile.mkdtemp(prefix='c05seq')
   r = rng(seed, 'c05-seq')
@@ -2669,6 +2760,13 @@ def drv_sequences(tier, seed):
             for second in ([('w', 0, x) for x in range(5)] + [('a', 0, x) for x in range(5)]
                            + [('r', 0, 0)]):
               hists.append((('w', 0, li), second + (peek,), ('close', 0, 0)))
+        # sessions in which one add is refused, after every earlier content.
+        bad = _REFUSED_LIST
+        hists += [(('a', 0, bad),), (('w', 0, bad), ('a', 0, 1)), (('w', 0, 2), ('a', 0, bad), ('a', 0, bad)),
+                  (('w', 0, 3), ('w', 1, bad), ('a', 0, bad), ('w', 0, bad))]
+        for li in range(5):
+          hists += [(('w', 0, li), ('a', 0, bad)), (('w', 0, li), ('w', 0, bad)),
+                    (('w', 0, 1), ('a', 0, li), ('a', 0, bad), ('a', 0, li))]
         for _ in range(n_rand):
           h = [('w', r.randrange(2), r.randrange(1, 5))]
           for _ in range(r.randint(2, 4)):
